@@ -1,5 +1,6 @@
 (* C10 — channel ids: unique among open channels, within 1..=channel_max, reusable.
    This file only pins statements. *)
+From Amq Require Import Lib.RsVal Gen.SrcSlots Proofs.SlotsSrc.
 From Amq Require Import Lib.Base Gen.Consts Model.Slots Spec.Slots Proofs.Slots Model.Tokens Proofs.Tokens.
 
 (* One step, from EVERY state satisfying the invariant (not only reachable ones): the
@@ -52,6 +53,28 @@ Theorem C10_tokens_injective : forall s1 s2,
   source_ok s1 -> source_ok s2 -> token_of s1 = token_of s2 -> s1 = s2.
 Proof. exact tokens_injective. Qed.
 
+(* THE MODEL IS THE SOURCE (src/io_loop/channel_slots.rs as translated from the source text on every run:
+   Gen/SrcSlots.v, tools/rs2sm.py).  ChannelSlots::insert(Some(id), make_entry) is Model/Slots.v's insert_some -
+   the function C10_step / C10_run are about - for every table state, every id, make_entry succeeding or failing.
+   ext_st_model is HashMap::{entry, remove} / Entry::insert and IndexSet::{insert, shift_remove, pop} as the code
+   uses them, ext_model the make_entry closure. *)
+Theorem C10_insert_some_source_is_model : forall (ok : bool) (id : N) (s : slots) (fuel : nat) (me : val), gen_ChannelSlots_insert (ext_model ok) ext_st_model fuel (enc s) (VC "Some" [VN id]) me = (enc (snd (insert_some ok id s)), enc_res (fst (insert_some ok id s))).
+Proof. exact insert_some_source_is_model. Qed.
+
+(* insert(None, make_entry) - the loop over the never-used counter (a recursive function on fuel), then the freed set -
+   is insert_none, whenever channel_max fits a u16, the freed set has no duplicates (an IndexSet) and the fuel the model
+   takes is enough. *)
+Theorem C10_insert_none_source_is_model : forall (ok : bool) (s : slots) (me : val), cmax s <= 65535 -> NoDup (freed s) -> fst (scan (scan_fuel s) ok s) <> Some RFuel -> gen_ChannelSlots_insert (ext_model ok) ext_st_model (scan_fuel s) (enc s) (VC "None" []) me = (enc (snd (insert_none ok s)), enc_res (fst (insert_none ok s))).
+Proof. exact insert_none_source_is_model. Qed.
+
+(* ... all of which hold in every state satisfying C10's invariant: no side condition is left. *)
+Theorem C10_insert_none_source_inv : forall (s : slots) (me : val), Inv s -> gen_ChannelSlots_insert (ext_model true) ext_st_model (scan_fuel s) (enc s) (VC "None" []) me = (enc (snd (insert_none true s)), enc_res (fst (insert_none true s))).
+Proof. exact insert_none_source_inv. Qed.
+
+(* ChannelSlots::remove is the model's remove. *)
+Theorem C10_remove_source_is_model : forall (id : N) (s : slots), gen_ChannelSlots_remove ext_st_model (enc s) (VN id) = (enc (snd (remove id s)), match fst (remove id s) with | RRemoved true => VC "Some" [VC "slot" [VN id]] | _ => VC "None" [] end).
+Proof. exact remove_source_is_model. Qed.
+
 (* non-vacuity: the witnesses of the three repaired defects run through the model *)
 Example C10_example :
   fst (run (new_slots 2) [OpenSome 0; OpenSome 2; Close 2; OpenNone; OpenNone; OpenNone]) =
@@ -77,6 +100,11 @@ Check C10_token_dispatch : forall s, source_ok s -> dispatch_token (token_of s) 
 Check C10_tokens_injective : forall s1 s2,
   source_ok s1 -> source_ok s2 -> token_of s1 = token_of s2 -> s1 = s2.
 
+Check C10_insert_some_source_is_model : forall (ok : bool) (id : N) (s : slots) (fuel : nat) (me : val), gen_ChannelSlots_insert (ext_model ok) ext_st_model fuel (enc s) (VC "Some" [VN id]) me = (enc (snd (insert_some ok id s)), enc_res (fst (insert_some ok id s))).
+Check C10_insert_none_source_is_model : forall (ok : bool) (s : slots) (me : val), cmax s <= 65535 -> NoDup (freed s) -> fst (scan (scan_fuel s) ok s) <> Some RFuel -> gen_ChannelSlots_insert (ext_model ok) ext_st_model (scan_fuel s) (enc s) (VC "None" []) me = (enc (snd (insert_none ok s)), enc_res (fst (insert_none ok s))).
+Check C10_insert_none_source_inv : forall (s : slots) (me : val), Inv s -> gen_ChannelSlots_insert (ext_model true) ext_st_model (scan_fuel s) (enc s) (VC "None" []) me = (enc (snd (insert_none true s)), enc_res (fst (insert_none true s))).
+Check C10_remove_source_is_model : forall (id : N) (s : slots), gen_ChannelSlots_remove ext_st_model (enc s) (VN id) = (enc (snd (remove id s)), match fst (remove id s) with | RRemoved true => VC "Some" [VC "slot" [VN id]] | _ => VC "None" [] end).
+
 Print Assumptions C10_step.
 Print Assumptions C10_run.
 Print Assumptions C10_allowed_excludes.
@@ -84,3 +112,8 @@ Print Assumptions C10_counter.
 Print Assumptions C10_token_dispatch.
 Print Assumptions C10_tokens_injective.
 Print Assumptions C10_example.
+Print Assumptions C10_insert_some_source_is_model.
+Print Assumptions C10_insert_none_source_is_model.
+Print Assumptions C10_insert_none_source_inv.
+Print Assumptions C10_remove_source_is_model.
+Print Assumptions slots_source_example.
